@@ -7,9 +7,15 @@ package parse
 // Layer L — lexer
 //
 // linv: the cursor invariant. start is the emission point, pos the read cursor.
-//@ pred linv(l *lexer) = 0 <= l.start && l.start <= l.pos && l.pos <= len(l.input)
-// sinv: between state functions everything read so far has been emitted.
-//@ pred sinv(l *lexer) = linv(l) && l.start == l.pos
+//@ pred cursor(l *lexer) = 0 <= l.start && l.start <= l.pos && l.pos <= len(l.input)
+// posinv (C20): line is 1 + the number of newlines before the emission point, offset the byte
+// column of the emission point within its line.
+//@ pred posinv(l *lexer) = l.line == 1 + nlcount(l.input, 0, l.start) && l.offset == l.start - linestart(l.input, l.start)
+// cinv: the channel is closed exactly when the lexer is in modeClosed (after EOF or an error token).
+//@ pred cinv(l *lexer) = closed(l.tokens) == (l.mode == modeClosed)
+//@ pred linv(l *lexer) = cursor(l) && posinv(l) && cinv(l)
+// sinv: between state functions everything read so far has been emitted and the stream is open.
+//@ pred sinv(l *lexer) = linv(l) && l.start == l.pos && l.mode != modeClosed
 //@ pred spaceByte(b int) = b == ' ' || b == '\t' || b == '\n' || b == '\r'
 //@ pred digitByte(b int) = '0' <= b && b <= '9'
 //@ pred letterByte(b int) = ('a' <= b && b <= 'z') || ('A' <= b && b <= 'Z')
@@ -43,10 +49,18 @@ package parse
 //@   ensures input: sameview(a0.input, old(a0.input)) || (result == nil && a0.mode == modeClosed)
 //@   ensures next: result != nil ==> sinv(a0) && statepre(result, a0)
 //@   ensures progress: result != nil ==> measure(result, a0) < old(measure(fn, a0))
+// G3: a state function that ends the machine has closed the stream (terminal token sent last),
+// except the return to lexString at the closing brace of an interpolation.
+//@   ensures term: result == nil ==> a0.mode == modeClosed || old(a0.mode) == modeInterpolate
+//@   ensures nointerp: old(a0.mode) != modeInterpolate ==> a0.mode != modeInterpolate
 
 //@ func parse.(*lexer).tokenize
-//@   requires sinv(l)
+//@   requires sinv(l) && l.mode == modeNormal
+// C19/C01: when the tokeniser goroutine ends, the stream is closed — the parser never waits on it.
+//@   ensures closed: closed(l.tokens)
 //@   loop 1 invariant st: l.state != nil ==> sinv(l) && statepre(l.state, l)
+//@   loop 1 invariant done: l.state == nil ==> closed(l.tokens)
+//@   loop 1 invariant mode: l.mode != modeInterpolate
 //@   loop 1 decreases ite(l.state == nil, 0, measure(l.state, l))
 
 //@ func parse.(*lexer).next
@@ -91,7 +105,7 @@ package parse
 //@   loop 1 invariant seen: 0 <= rangepos() && rangepos() <= len(s) && (forall i :: 0 <= i && i < rangepos() ==> letterByte(s[i]))
 
 //@ func parse.(*lexer).emit
-//@   requires linv(l)
+//@   requires linv(l) && l.mode != modeClosed
 //@   ensures inv: linv(l)
 //@   ensures start: l.start == l.pos && l.pos == old(l.pos)
 //@   ensures sent: sentcount(l.tokens) == old(sentcount(l.tokens)) + 1
@@ -99,17 +113,33 @@ package parse
 //@   ensures val: sameview(sent(l.tokens, old(sentcount(l.tokens)), "token").value, l.input[old(l.start):l.pos])
 //@   ensures pos: sent(l.tokens, old(sentcount(l.tokens)), "token").Line == old(l.line) && sent(l.tokens, old(sentcount(l.tokens)), "token").Offset == old(l.offset)
 //@   ensures input: sameview(l.input, old(l.input)) && l.parens == old(l.parens)
+//@   ensures keep: forall i :: i < old(sentcount(l.tokens)) ==> sent(l.tokens, i, "token") == old(sent(l.tokens, i, "token"))
 //@   ensures mode: t != tokenEOF ==> l.mode == old(l.mode)
 //@   ensures closed: t == tokenEOF ==> l.mode == modeClosed
 
 //@ func parse.(*lexer).errorf
+//@   requires linv(l) && l.mode != modeClosed
+//@   ensures inv: linv(l) && l.pos == old(l.pos) && l.start == old(l.start) && sameview(l.input, old(l.input))
+//@   ensures closed: l.mode == modeClosed
+// C20: an error token carries the position of the emission point
+//@   ensures pos: sent(l.tokens, old(sentcount(l.tokens)), "token").Line == old(l.line) && sent(l.tokens, old(sentcount(l.tokens)), "token").Offset == old(l.offset)
 //@   ensures nil: result == nil
 //@   ensures sent: sentcount(l.tokens) == old(sentcount(l.tokens)) + 1
 //@   ensures tok: sent(l.tokens, old(sentcount(l.tokens)), "token").tokenType == tokenError
 
+// opens(l, j): an opening delimiter starts at byte j
+//@ pred opens(l *lexer, j int) = j + 1 < len(l.input) && l.input[j] == '{' && (l.input[j+1] == '#' || l.input[j+1] == '%' || l.input[j+1] == '{')
 //@ func parse.lexData
 //@   implements functype:parse.stateFn
 //@   loop 1 invariant linv(l) && l.start == old(l.start) && l.pos >= old(l.pos) && sameview(l.input, old(l.input)) && l.mode == old(l.mode)
+// C03: the text token runs up to the next opening delimiter (or the end of input) and contains none
+//@   loop 1 invariant text: forall j :: old(l.pos) <= j && j < l.pos ==> !opens(l, j)
+//@   loop 1 invariant sent: sentcount(l.tokens) == old(sentcount(l.tokens))
+//@   asserts stop: result != nil ==> opens(l, l.pos)
+//@   asserts texttype: sentcount(l.tokens) > old(sentcount(l.tokens)) && old(l.pos) < l.pos ==>
+//@+      sent(l.tokens, old(sentcount(l.tokens)), "token").tokenType == tokenText
+//@   asserts textspan: sentcount(l.tokens) > old(sentcount(l.tokens)) && old(l.pos) < l.pos ==>
+//@+      sameview(sent(l.tokens, old(sentcount(l.tokens)), "token").value, l.input[old(l.start):l.pos])
 //@   loop 1 decreases len(l.input) - l.pos
 
 //@ func parse.lexExpression
@@ -171,6 +201,7 @@ package parse
 //@ func parse.lexString
 //@   implements functype:parse.stateFn
 //@   loop 1 invariant linv(l) && l.start == l.pos && l.pos >= entry(l.pos) && l.start >= old(l.start) && sameview(l.input, entry(l.input))
+//@   loop 1 invariant mode: l.mode != modeClosed && (l.mode == old(l.mode) || l.mode == modeNormal)
 //@   loop 1 decreases len(l.input) - l.pos
 //@   loop 2 invariant mono: linv(l) && l.pos >= entry(l.pos) && l.start >= entry(l.start)
 //@   loop 2 invariant input: sameview(l.input, entry(l.input)) || (ins == nil && l.mode == modeClosed)
